@@ -1,8 +1,16 @@
 import GeomV.C03.Spec
 /-!
-# C03 — specification of `op.FixOrientation` and `op.Within`
+# C03 — what `op.FixOrientation` and `op.Within` are documented to do
 
 Independent of the model (imports only `Spec.lean`).  Core Lean only.
+
+Role: property C03 speaks of Area, Centroid, Length, Distance and Buffer; `Within`/`FixOrientation` are
+mechanism.  These definitions are therefore NOT verdicts on `Within`/`FixOrientation` themselves (those
+are tied to `ModelOp` by exact correspondence only).  They are used (1) by the judge for the composite
+that touches the property — `op.Area`/`op.Centroid` after `FixOrientation` on a valid polygon — and for
+the class histogram (`-notclosedregion`), (2) by ProofsOp.lean to state what is true of the model
+(`ringsKept`, crossing-number agreement off the boundary on grids) and the kernel-checked witnesses of
+what is not (observations F1–F3 of notes/C03.md).
 
 Reading (doc comments of op/properties.go): rings are given CLOSED (`V[n] = V[0]`); a valid polygon is
 `Spec.ValidPoly` on the opened rings, its rings listed in any order and each wound either way.
